@@ -17,6 +17,7 @@ import (
 	"sort"
 	"strconv"
 	"strings"
+	"unicode/utf8"
 
 	"verif/harness/internal/core"
 )
@@ -370,10 +371,28 @@ func Inflate(enc string, b []byte) ([]byte, error) {
 }
 
 // Payload kinds: text (ASCII), utf8 (multi-byte), bin (random), badutf (mostly text with invalid
-// sequences), zero.
+// sequences), zero, latebad (a valid text preamble; invalid UTF-8 only in the last few bytes: a
+// classifier that looks at a prefix of the body takes it for text).
 func Payload(r *core.Rand, kind string, n int) []byte {
 	b := make([]byte, 0, n+4)
 	switch kind {
+	case "latebad":
+		k := 1 + r.Intn(6)
+		if k > n {
+			k = n
+		}
+		pre := "text"
+		if r.Chance(1, 3) {
+			pre = "utf8"
+		}
+		b = append(b, Payload(r, pre, n-k)...)
+		tails := []string{"\xff", "\x80", "\xc3", "\xe2\x82", "\xf0\x9f\x98", "\xed\xa0\x80", "\xc0\xaf", "\xfe\xff\x00\x01"}
+		for len(b) < n {
+			b = append(b, tails[r.Intn(len(tails))]...)
+		}
+		if n > 0 && utf8.Valid(b[:n]) {
+			b[n-1] = 0xff
+		}
 	case "text":
 		const al = "abcdefghijklmnopqrstuvwxyz ABCDEFGHIJKLMNOPQRSTUVWXYZ0123456789\r\n\t\"\\<>&{}:,/=%+"
 		for len(b) < n {
